@@ -699,6 +699,12 @@ def run(ctx):
     timed("mutants", _part_mutants, [ctx.scale(300, 14000)] * 16)
     timed("pairs", _part_pairs, [(ctx.scale(120, 4000), ctx.scale(4, 12))] * 16)
     timed("git_encoder", _part_git_encoder, [ctx.scale(80, 800)] * 16)
+    # coverage-guided campaigns over (base, delta) with the same oracle inside the target (E3)
+    from .. import fuzz
+
+    t = time.time()
+    fuzz.run_campaigns(ctx, "vf.fuzzt.c03", [("apply_delta", ctx.scale(12000, 600000), ctx.scale(8, 16))])
+    ctx.note("wall_fuzz", round(time.time() - t, 1))
 
 
 def replay(ctx, check, case):
@@ -716,5 +722,9 @@ def replay(ctx, check, case):
             git_decode_batch(sub, q)
 
         sandbox.isolated(ctx, fn, [("pair", case["base"], case["target"])], on_death)
+    elif check == "fuzz":
+        from .. import fuzz
+
+        fuzz.replay(ctx, case)
     else:
         raise HarnessError(f"unknown check {check!r}")
